@@ -157,15 +157,19 @@ func driveC06(c *h.Ctx) error {
 			cases = append(cases, gcase{pc.Response, pc.Ver, pc.Opts, pc.Note})
 		}
 	}
+	replayIndex := -1
 	if c.Replay != nil {
 		cs, _ := c.Replay["case"].(map[string]any)
 		i := int(cs["case_index"].(float64))
 		if i < len(cases) {
-			cases = []gcase{cases[i]}
+			replayIndex = i
 		}
 	}
 	var rowsSame, rowsMsg, rowsDec []string
 	for i, gc := range cases {
+		if replayIndex >= 0 && i != replayIndex {
+			continue
+		}
 		r := h.NewRand(c.Seed).Fork(uint64(i + 1))
 		var msg any
 		if gc.resp {
